@@ -258,9 +258,15 @@ func (fc *FnCtx) typeFacts(t types.Type, v Value, next Term) []Term {
 		if v.K == KPtr {
 			out = append(out, Lt(v.Obj(), next), Ge(v.Off(), IntLit(0)))
 			out = append(out, Implies(Eq(v.Obj(), IntLit(0)), Eq(v.Off(), IntLit(0))))
+			if f := fc.eng.otypeFact(v.Obj(), t); f.S != "true" {
+				out = append(out, f)
+			}
 		}
 	case *types.Slice:
 		if v.K == KSlice {
+			if f := fc.eng.otypeFact(v.Obj(), t); f.S != "true" {
+				out = append(out, f)
+			}
 			out = append(out, Lt(v.Obj(), next), Ge(v.Off(), IntLit(0)),
 				Le(IntLit(0), v.Len()), Le(v.Len(), v.Cap()), Le(v.Cap(), Term{"maxSliceCap", SInt}),
 				Implies(Eq(v.Obj(), IntLit(0)), And(Eq(v.Cap(), IntLit(0)), Eq(v.Off(), IntLit(0)))))
@@ -416,7 +422,7 @@ func (fc *FnCtx) edgeCond(p, s *ssa.BasicBlock) Term {
 // ---------------------------------------------------------------------
 
 func (fc *FnCtx) initialState() *State {
-	s := &State{heap: map[Sort]Term{}, ghost: map[string]Term{}}
+	s := &State{heap: map[Sort]Term{}, ghost: map[string]Term{}, fc: fc}
 	for _, hs := range heapSorts {
 		s.heap[hs] = fc.declare("H0_"+sortTag(hs), heapSort(hs))
 	}
@@ -475,6 +481,12 @@ func (fc *FnCtx) translate() {
 		}
 		if v.K == KPtr {
 			fc.assume(Not(Eq(v.Obj(), IntLit(0))))
+		}
+	}
+	// implicit requires: pointer-like parameters are non-nil (checked at every call site)
+	for _, p := range fn.Params {
+		if t := nonNilTerm(fc.vals[p], p.Type()); !t.IsZero() && !fc.c.isNilable(p.Name()) {
+			fc.assume(t)
 		}
 	}
 	// requires
@@ -783,6 +795,13 @@ func (fc *FnCtx) checkInvariants(li *LoopInfo, env *Env, kind string, guard Term
 	if fr, ok := fc.loopFrame(li, env.st); ok {
 		fc.obligeAt(blk, kind, fmt.Sprintf("loop%d:frame", li.ord), token.NoPos, Implies(guard, fr))
 	}
+	if fc.c != nil {
+		for _, pz := range fc.c.Preserves {
+			if eqs, err := fc.preservesEqs(fc.entryEnv(), pz, fc.entry, env.st); err == nil {
+				fc.obligeAt(blk, kind, fmt.Sprintf("loop%d:preserves %s", li.ord, pz), token.NoPos, Implies(guard, eqs))
+			}
+		}
+	}
 }
 
 func (fc *FnCtx) assumeInvariants(li *LoopInfo, env *Env) {
@@ -800,6 +819,13 @@ func (fc *FnCtx) assumeInvariants(li *LoopInfo, env *Env) {
 	}
 	if fr, ok := fc.loopFrame(li, env.st); ok {
 		fc.assume(fr)
+	}
+	if fc.c != nil {
+		for _, pz := range fc.c.Preserves {
+			if eqs, err := fc.preservesEqs(fc.entryEnv(), pz, fc.entry, env.st); err == nil {
+				fc.assume(eqs)
+			}
+		}
 	}
 	fc.loopUses(li, env)
 }
@@ -872,6 +898,28 @@ func (fc *FnCtx) autoInvariants(li *LoopInfo, env *Env) []descTerm {
 			continue
 		}
 		out = append(out, descTerm{fmt.Sprintf("%s>=%d", phi.Comment, *lo), Ge(cur.T, IntLit(*lo))})
+		// range-over-slice loops increment before comparing: index < length is invariant
+		if h.Comment == "rangeindex.loop" {
+			for _, hi := range h.Instrs {
+				cmp, ok := hi.(*ssa.BinOp)
+				if !ok || cmp.Op != token.LSS {
+					continue
+				}
+				add, ok := cmp.X.(*ssa.BinOp)
+				if !ok || add.X != ssa.Value(phi) {
+					continue
+				}
+				if _, defined := fc.vals[cmp.Y]; !defined {
+					if _, isConst := cmp.Y.(*ssa.Const); !isConst {
+						continue
+					}
+				}
+				lim := fc.val(cmp.Y)
+				if lim.K == KLeaf && lim.T.Sort == SInt {
+					out = append(out, descTerm{fmt.Sprintf("%s<len", phi.Comment), Lt(cur.T, lim.T)})
+				}
+			}
+		}
 	}
 	return out
 }
@@ -1058,4 +1106,31 @@ func joinNonEmpty(parts ...string) string {
 		}
 	}
 	return strings.Join(out, " ")
+}
+
+// nonNilTerm: non-nil-ness of a pointer-like value (zero Term if not pointer-like).
+func nonNilTerm(v Value, t types.Type) Term {
+	switch t.Underlying().(type) {
+	case *types.Pointer, *types.Interface:
+		if v.K == KPtr || v.K == KIface {
+			return Not(Eq(v.E[0].T, IntLit(0)))
+		}
+	case *types.Map, *types.Signature, *types.Chan:
+		if v.K == KLeaf && v.T.Sort == SInt {
+			return Not(Eq(v.T, IntLit(0)))
+		}
+	}
+	return Term{}
+}
+
+func (c *Contract) isNilable(name string) bool {
+	if c == nil {
+		return false
+	}
+	for _, n := range c.Nilable {
+		if n == name || n == "*" {
+			return true
+		}
+	}
+	return false
 }
